@@ -16,6 +16,8 @@ from fractions import Fraction
 import numpy as np
 
 ID = "C17"
+# computational entry points whose results are watched by the engine's retained-result oracle (mc/explore.py)
+RETAIN = [('hydrodiy.stat.armodels', 'armodel_sim'), ('hydrodiy.stat.armodels', 'armodel_residual')]
 RULE = ("nested enumeration, each tuple once: order 1..10 x coefficient vector over {-0.5,0,0.25,0.5} (all vectors "
         "for order <= 3, all vectors with <= 2 non-zero lags at any position for order 4..10; sum|phi| <= 1.5) x "
         "(sim_mean, sim_ini) over {default/None,-2,0,1.5}^2 (a stated subset for order >= 4) x series over "
